@@ -78,6 +78,10 @@ def gen(chk, tier):
     for i, v in enumerate(structured_scalars(rng, tier)):
         for w in (ws if (tier == "thorough" or i % 3 == 0) else [4, 1 + i % 7]):
             one("naf_w%d" % w, op="utils.naf", s=b32(v), n=257, w=w)
+    # a zeroed workspace longer than n (callers may hand in a bigger slice): nothing beyond place n
+    for i, v in enumerate(structured_scalars(rng, "quick")[:24]):
+        for extra in (1, 7, 63):
+            one("naf_longer_workspace", op="utils.naf", s=b32(v), n=257, w=1 + (i + extra) % 7, extra=extra)
     for nbytes in [1, 2, 3, 8, 31, 33]:
         for _ in range(4):
             v = rng.getrandbits(8 * nbytes)
